@@ -658,6 +658,10 @@ class BaseCartesianData(BaseData, metaclass=abc.ABCMeta):
 
         self._externally_derivable_components = derivable_components
 
+        # masks of selections on linked attributes were computed through the
+        # links that have just changed
+        _clear_mask_caches()
+
         if self.hub:
             msg = ExternallyDerivableComponentsChangedMessage(self)
             self.hub.broadcast(msg)
